@@ -109,11 +109,12 @@ def _w_freq(res, p):
     res.sample({"frequencies_over": keys, "marked": marked})
 
 
-def build_operator(terms, coeff_of):
+def build_operator(terms, coeff_of, bare=False):
+    """bare: the operator is handed over as a bare PauliTerm (not wrapped in a PauliSum)."""
     from orquestra.quantum.operators import PauliTerm, PauliSum
 
     ts = [PauliTerm({int(q): "Z" for q in qs}, coeff_of(c)) for qs, c in terms]
-    return ts[0] if len(ts) == 1 and terms[0][1] == "single" else PauliSum(ts)
+    return ts[0] if len(ts) == 1 and (bare or terms[0][1] == "single") else PauliSum(ts)
 
 
 def _w_stats(res, p):
@@ -138,7 +139,7 @@ def _w_stats(res, p):
 
     def fn(ex):
         cf = lambda c: ST.SV(names[c]) if isinstance(c, str) else c  # noqa: E731
-        op = build_operator(terms, cf)
+        op = build_operator(terms, cf, p.get("bare", False))
         m = Measurements(list(shots))
         before = list(m.bitstrings)
         ev = m.get_expectation_values(op, use_bessel_correction=bessel)
@@ -146,6 +147,12 @@ def _w_stats(res, p):
         if ST.poisoned([vals, corr, cov]):
             raise ST.Inconclusive("NaN poison")
         from fractions import Fraction
+
+        nt = len(terms)
+        shapes_ok = tuple(np.shape(vals)) == (nt,) and tuple(np.shape(corr)) == (nt, nt) and tuple(np.shape(cov)) == (nt, nt) and len(ev.correlations) == 1 and len(ev.estimator_covariances) == 1
+        records.append(("one-entry-per-term",) + ex.prove(z3.BoolVal(bool(shapes_ok))))
+        if not shapes_ok:
+            return ev
 
         cs = [ST.zr_real(cf(c)) for _, c in terms]
         mean = [Fraction(sum(eig(s, qs) for s in shots), N) for qs, _ in terms]
@@ -252,12 +259,15 @@ OPERATORS = {
         [([1], "k0"), ([0, 1], "k1"), ([], "k2")],
         [([], "k0"), ([], "k1")],
         [([0, 1], "single")],
+        [([1], "single")],
     ],
     3: [
         [([0, 1], "k0"), ([1, 2], "k1"), ([], "k2")],
         [([0], "k0"), ([1, 2], "k1"), ([0], "k2")],
         [([2], "k0"), ([0, 1, 2], "k1")],
         [([0, 2], 2.0), ([1], "k0"), ([], -15.0)],
+        [([0, 1, 2], "single")],
+        [([2, 0], "single")],
     ],
 }
 
@@ -283,8 +293,9 @@ def instances(tier, seed):
                         continue
                     if w == 2 and tier == "quick" and not stable_pick((str(ms), oi, bessel), 2, seed) and len(ms) > 1:
                         continue
-                    t = [(qs, (1.0 if c == "single" else c)) for qs, c in terms] if terms[0][1] == "single" else terms
-                    items.append(("stats", {"shots": [list(s) for s in ms], "terms": [[qs, c] for qs, c in t], "bessel": bessel, "label": f"shots={ms} op#{oi}w{w} bessel={bessel}"}))
+                    bare = terms[0][1] == "single"
+                    t = [(qs, "k0") for qs, c in terms] if bare else terms
+                    items.append(("stats", {"shots": [list(s) for s in ms], "terms": [[qs, c] for qs, c in t], "bessel": bessel, "bare": bare, "label": f"shots={ms} op#{oi}w{w}{' bare term' if bare else ''} bessel={bessel}"}))
     for keys in (["0", "1"], ["00", "01", "11"], ["101", "010"], ["00", "01", "10", "11"] if tier == "thorough" else ["10", "11"]):
         items.append(("counts", {"keys": keys, "label": f"counts over {keys}"}))
     for w in (2, 3):
@@ -350,13 +361,17 @@ def replay(data):
         shots = [tuple(s) for s in p["shots"]]
         terms = p["terms"]
         cf = lambda c: float(vals.get(c, 0.5)) if isinstance(c, str) else c  # noqa: E731
-        op = build_operator(terms, cf)
+        op = build_operator(terms, cf, p.get("bare", False))
         m = Measurements(list(shots))
         try:
             ev = m.get_expectation_values(op, use_bessel_correction=p["bessel"])
         except Exception as e:
             return clause == "raises", f"raised {type(e).__name__}: {e}"
         N = len(shots)
+        if clause == "one-entry-per-term":
+            nt = len(terms)
+            shp = (np.shape(ev.values), np.shape(ev.correlations[0]), np.shape(ev.estimator_covariances[0]))
+            return shp != ((nt,), (nt, nt), (nt, nt)), f"shapes {shp} for {nt} term(s)"
         cs = [cf(c) for _, c in terms]
         mean = [sum(eig(s, qs) for s in shots) / N for qs, _ in terms]
         den = N - 1 if p["bessel"] else N
